@@ -70,6 +70,10 @@ def chains(run, cases):
             calls.append(('dd_dtw.c::dtw_expand_wps_slice',
                           dict(wps={'ref': ['wp%d' % idx, 'wps']}, full={'buf': [fx(-9.0)] * ((re - rb) * (ce - cb))},
                                l1=l1, l2=l2, rb=rb, re=re, cb=cb, ce=ce, settings=st), 'sl%d' % idx))
+            # a slice that starts at row 0 but not at column 0
+            calls.append(('dd_dtw.c::dtw_expand_wps_slice',
+                          dict(wps={'ref': ['wp%d' % idx, 'wps']}, full={'buf': [fx(-9.0)] * (min(2, l1 + 1) * l2)},
+                               l1=l1, l2=l2, rb=0, re=min(2, l1 + 1), cb=1, ce=l2 + 1, settings=st), 's0%d' % idx))
             calls.append(('dd_dtw.c::dtw_warping_path_ndim',
                           dict(from_s={'buf': flat(k['s1'])}, from_l=l1, to_s={'buf': flat(k['s2'])}, to_l=l2,
                                from_i={'buf': [0] * (l1 + l2), 'elem': 'long'}, to_i={'buf': [0] * (l1 + l2), 'elem': 'long'},
@@ -214,4 +218,234 @@ def sweep_c_matrices(run, props=('C04', 'C05', 'C08')):
                       bound='lengths <= %d' % (4 if quick else 5), samples=samples, violations=violations[p],
                       n_violations=len(violations[p]), label='bounded')
     run._c_matrix_sweep = out
+    return out
+
+
+# ---------------------------------------------------------------------------------------------
+# Larger shapes (the band regions C and D of the compact layout need l > 2*window): same chains, judged
+# against the accumulated-cost recurrence W itself (specs/dtw.py PyCtx -- the definition dtw.warping_paths
+# is proved to compute and that Bellman.lean proves optimal), which is polynomial where the path
+# enumeration oracle is not.
+def gen_large_cases(run, n, lo=4, hi=9):
+    rng = random.Random(run.seed + 11)
+    out = []
+    for _ in range(n):
+        r, c = rng.randint(lo, hi), rng.randint(lo, hi)
+        if rng.random() < 0.3:
+            c = r
+        nd = rng.choice([1, 1, 1, 2])
+        s1 = [[rng.choice(VALS) for _ in range(nd)] for _ in range(r)]
+        s2 = [[rng.choice(VALS) for _ in range(nd)] for _ in range(c)]
+        w = rng.choice([1, 2, 2, 3, 4, None])
+        pen = rng.choice([None, 0.5, 2.0, 0.5])
+        ms = rng.choice([None, None, 2.5])
+        psi = None
+        if rng.random() < 0.2:
+            psi = (rng.randint(0, 2), rng.randint(0, 2), rng.randint(0, 2), rng.randint(0, 2))
+        out.append(dict(s1=s1, s2=s2, nd=nd, w=w, psi=psi, pen=pen, ms=ms, metric=rng.choice([0, 0, 1])))
+    return out
+
+
+def w_oracle(k):
+    from specs.dtw import PyCtx
+    r, c, nd, m = len(k['s1']), len(k['s2']), k['nd'], k['metric']
+    adj = (lambda x: x * x) if m == 0 else (lambda x: x)
+    psi = k['psi'] or (0, 0, 0, 0)
+    a1 = [x for p in k['s1'] for x in p]
+    a2 = [x for p in k['s2'] for x in p]
+    ctx = PyCtx(a1, r, a2, c, max(r, c) if k['w'] is None else k['w'], adj(k['pen']) if k['pen'] else 0.0,
+                adj(k['ms']) if k['ms'] else INF, psi[0], psi[2], m, nd if nd > 1 else 0, 'c')
+    if nd == 1:
+        ctx.a1, ctx.a2 = a1, a2
+    return ctx, psi
+
+
+def sweep_c_matrices_large(run, props=('C04', 'C08')):
+    quick = run.tier == 'quick'
+    cached = getattr(run, '_c_matrix_large', None)
+    if cached is not None:
+        return cached
+    cases = gen_large_cases(run, 160 if quick else 1600)
+    res = chains(run, cases)
+    by = {}
+    for cid, cname, args, o in res:
+        by.setdefault(int(cid[2:]), {})[cid[:2]] = (cname, args, o)
+    violations = {p: [] for p in ('C04', 'C08')}
+    evaluations = 0
+    samples = []
+    for idx, d in sorted(by.items()):
+        k = cases[idx]
+        evaluations += len(d)
+        for tag, (cname, args, o) in d.items():
+            if not o.get('ok'):
+                violations['C08'].append(dict(function=cname, failing_input=args, native_outcome=o, case=k,
+                                              what='sanitizer report in %s' % cname))
+        if 'wp' not in d or not d['wp'][2].get('ok'):
+            continue
+        ctx, psi = w_oracle(k)
+        r, c = ctx.r, ctx.c
+        dist_c = float.fromhex(d['wp'][2]['result']['f'])
+        want = ctx.dend(psi[1], psi[3])
+        if not close(dist_c, want):
+            violations['C04'].append(dict(function='dd_dtw.c::dtw_warping_paths_ndim', failing_input=d['wp'][1], case=k,
+                                          oracle=want, engine=dist_c, what='returned distance differs from the recurrence optimum'))
+        if 'ex' in d and d['ex'][2].get('ok'):
+            full = [float.fromhex(x['f']) for x in d['ex'][2]['args_after']['full']['buf']]
+            bad = None
+            for a in range(1, r + 1):
+                for b in range(1, c + 1):
+                    if not close(full[a * (c + 1) + b], ctx.W(a, b)):
+                        bad = (a, b)
+                        break
+                if bad:
+                    break
+            if bad:
+                a, b = bad
+                violations['C04'].append(dict(function='dd_dtw.c::dtw_expand_wps', failing_input=d['wp'][1], case=k, cell=[a, b],
+                                              oracle=ctx.W(a, b), engine=full[a * (c + 1) + b],
+                                              what='expanded cost matrix cell differs from the optimum of partial paths'))
+        if len(samples) < 3:
+            samples.append(dict(case=k, c_distance_internal=dist_c, oracle=want))
+    out = {}
+    for p in props:
+        out[p] = dict(evaluations=evaluations, distinct_nontrivial=len(by),
+                      rule='the same chains on random larger shapes (regions C/D of the compact layout), small windows, penalty, '
+                           'max_step, some psi; distance and every expanded cell against the accumulated-cost recurrence W',
+                      bound='lengths 4..9, %d random cases' % len(cases), samples=samples, violations=violations[p],
+                      n_violations=len(violations[p]), label='bounded')
+    run._c_matrix_large = out
+    return out
+
+
+# ---------------------------------------------------------------------------------------------
+# Affinity family and the compact-matrix helpers (C08 sanitizer coverage, C18 values): chains
+#   wps_parts / wps_length -> warping_paths_affinity_ndim -> expand_wps_affinity -> wps_max -> best_path_affinity
+#   -> wps_negativize_value / wps_negativize / wps_positivize -> expand_wps_slice_affinity (row 0 based)
+# judged against the affinity recurrence A of specs/affinity.py (PyACtx, libm exp up to 1e-9).
+def gen_affinity_cases(run, n):
+    rng = random.Random(run.seed + 13)
+    out = []
+    for _ in range(n):
+        r, c = rng.randint(1, 7), rng.randint(1, 7)
+        if rng.random() < 0.3:
+            c = r
+        out.append(dict(s1=[rng.choice(VALS) for _ in range(r)], s2=[rng.choice(VALS) for _ in range(c)],
+                        w=rng.choice([None, None, 1, 2, 3]), triu=rng.random() < 0.3, pen=rng.choice([0.0, 1.0, 0.0]),
+                        gamma=rng.choice([1.0, 0.5, 2.0]), tau=rng.choice([0.0, 0.3, 0.6]), delta=rng.choice([0.0, -0.2, -1.2]),
+                        dfac=rng.choice([1.0, 0.5, 0.9]), metric=0))
+    return out
+
+
+def sweep_c_affinity(run, props=('C08', 'C18')):
+    from dvc import creplay
+    from specs.affinity import PyACtx
+    quick = run.tier == 'quick'
+    cached = getattr(run, '_c_affinity', None)
+    if cached is not None:
+        return cached
+    cases = gen_affinity_cases(run, 120 if quick else 1200)
+    sts = [c_settings(k['w'], None, k['pen'], None, k['metric']) for k in cases]
+    sizes = creplay.native_c_batch(run.program, [('dd_dtw.c::dtw_settings_wps_length',
+                                                  dict(l1=len(k['s1']), l2=len(k['s2']), settings=st)) for k, st in zip(cases, sts)])
+    parts = creplay.native_c_batch(run.program, [('dd_dtw.c::dtw_wps_parts',
+                                                  dict(l1=len(k['s1']), l2=len(k['s2']), settings=st)) for k, st in zip(cases, sts)])
+    violations = {p: [] for p in ('C08', 'C18')}
+    evaluations = 0
+    samples = []
+    NINF = float('-inf')
+    for idx, (k, st) in enumerate(zip(cases, sts)):
+        if not sizes[idx] or not sizes[idx].get('ok') or not parts[idx] or not parts[idx].get('ok'):
+            violations['C08'].append(dict(function='dd_dtw.c::dtw_wps_parts', failing_input=dict(case=k), case=k,
+                                          native_outcome=parts[idx] or sizes[idx], what='sanitizer report in dtw_wps_parts / wps_length'))
+            continue
+        L = sizes[idx]['result']
+        P = {'struct': parts[idx]['result']['struct']}
+        l1, l2 = len(k['s1']), len(k['s2'])
+        base = dict(s1={'buf': [fx(x) for x in k['s1']]}, l1=l1, s2={'buf': [fx(x) for x in k['s2']]}, l2=l2)
+        lbuf = lambda n_: {'buf': [0] * n_, 'elem': 'long'}      # noqa: E731
+        calls = [
+            ('dd_dtw.c::dtw_warping_paths_affinity_ndim',
+             dict(base, wps={'buf': [fx(NINF)] * L}, return_dtw=True, keep_int_repr=True, psi_neg=False, only_triu=k['triu'], ndim=1,
+                  gamma=fx(k['gamma']), tau=fx(k['tau']), delta=fx(k['delta']), delta_factor=fx(k['dfac']), settings=st), 'w'),
+            ('dd_dtw.c::dtw_expand_wps_affinity',
+             dict(wps={'ref': ['w', 'wps']}, full={'buf': [fx(-9.0)] * ((l1 + 1) * (l2 + 1))}, l1=l1, l2=l2, settings=st), 'e'),
+            ('dd_dtw.c::dtw_expand_wps_slice_affinity',
+             dict(wps={'ref': ['w', 'wps']}, full={'buf': [fx(-9.0)] * ((l1 + 1) * (l2 + 1))}, l1=l1, l2=l2, rb=0, re=l1 + 1, cb=0,
+                  ce=l2 + 1, settings=st), 's'),
+            ('dd_dtw.c::dtw_wps_max', dict(p=P, wps={'ref': ['w', 'wps']}, r=lbuf(1), c=lbuf(1), l1=l1, l2=l2), 'm'),
+            ('dd_dtw.c::dtw_best_path_affinity',
+             dict(wps={'ref': ['w', 'wps']}, i1=lbuf(l1 + l2), i2=lbuf(l1 + l2), l1=l1, l2=l2, rs=l1, cs=l2, settings=st), 'b'),
+            ('dd_dtw.c::dtw_wps_negativize_value', dict(p=P, wps={'ref': ['w', 'wps']}, l1=l1, l2=l2, r=l1, c=l2), 'n'),
+            ('dd_dtw.c::dtw_wps_negativize', dict(p=P, wps={'ref': ['w', 'wps']}, l1=l1, l2=l2, rb=idx % (l1 + 1), re=l1 + 1,
+                                                  cb=(idx // 2) % (l2 + 1), ce=l2 + 1, intersection=bool(idx % 2)), 'g'),
+            ('dd_dtw.c::dtw_wps_positivize', dict(p=P, wps={'ref': ['g', 'wps']}, l1=l1, l2=l2, rb=0, re=l1 + 1, cb=0, ce=l2 + 1,
+                                                  intersection=False), 'q'),
+        ]
+        for rr in range(0, l1 + 1, max(1, l1)):
+            for cc in range(0, l2 + 1, max(1, l2)):
+                calls.append(('dd_dtw.c::dtw_wps_loc', dict(p=P, r=rr, c=cc, l1=l1, l2=l2), 'l%d_%d' % (rr, cc)))
+        outs = creplay.native_c_batch(run.program, calls)
+        res = {}
+        for (cname, args, cid), o in zip(calls, outs):
+            if o is None:
+                continue
+            evaluations += 1
+            res[cid] = o
+            if not o.get('ok'):
+                violations['C08'].append(dict(function=cname, failing_input=args, native_outcome=o, case=k,
+                                              what='sanitizer report in %s' % cname))
+        # values: the expanded matrix against the recurrence
+        ctx = PyACtx(k['s1'], l1, k['s2'], l2, max(l1, l2) if k['w'] is None else k['w'], k['pen'], k['gamma'], k['tau'],
+                     k['delta'], k['dfac'], 0, 0, k['triu'])
+
+        def judge(tag, fn):
+            o = res.get(tag)
+            if not o or not o.get('ok'):
+                return
+            full = [float.fromhex(x['f']) for x in o['args_after']['full']['buf']]
+            for a in range(1, l1 + 1):
+                for b in range(1, l2 + 1):
+                    got, want = full[a * (l2 + 1) + b], ctx.A(a, b)
+                    if not (got == want or (abs(got) != INF and abs(want) != INF and abs(got - want) <= 1e-9 * max(1.0, abs(want)))):
+                        violations['C18'].append(dict(function=fn, failing_input=calls[0][1], case=k, cell=[a, b], oracle=want, engine=got,
+                                                      what='expanded affinity matrix cell differs from the recurrence'))
+                        return
+        judge('e', 'dd_dtw.c::dtw_expand_wps_affinity')
+        judge('s', 'dd_dtw.c::dtw_expand_wps_slice_affinity')
+        o = res.get('w')
+        if o and o.get('ok'):
+            got, want = float.fromhex(o['result']['f']), ctx.A(l1, l2)
+            if not (got == want or abs(got - want) <= 1e-9 * max(1.0, abs(want))):
+                violations['C18'].append(dict(function='dd_dtw.c::dtw_warping_paths_affinity_ndim', failing_input=calls[0][1], case=k,
+                                              oracle=want, engine=got, what='returned value differs from the recurrence A(l1, l2)'))
+        # the traced path: contiguous, monotone, through positive cells
+        o = res.get('b')
+        if o and o.get('ok'):
+            n_ = o['result']
+            pairs = list(zip(o['args_after']['i1']['buf'][:n_], o['args_after']['i2']['buf'][:n_]))
+            if pairs != sorted(pairs):
+                pairs = pairs[::-1]
+            err = None
+            for (a, b), (a2, b2) in zip(pairs, pairs[1:]):
+                if (a2 - a, b2 - b) not in ((1, 1), (1, 0), (0, 1)):
+                    err = 'step %s -> %s' % ((a, b), (a2, b2))
+            for (a, b) in pairs:
+                if not (0 <= a < l1 and 0 <= b < l2):
+                    err = 'pair %s outside the matrix' % ((a, b),)
+                elif not ctx.A(a + 1, b + 1) > 0:
+                    err = 'pair %s is not a positive cell' % ((a, b),)
+            if err:
+                violations['C18'].append(dict(function='dd_dtw.c::dtw_best_path_affinity', failing_input=calls[4][1], case=k,
+                                              path=pairs, what='traced match: ' + err))
+        if len(samples) < 3:
+            samples.append(dict(case=k, value=res.get('w', {}).get('result')))
+    out = {}
+    for p in props:
+        out[p] = dict(evaluations=evaluations, distinct_nontrivial=len(cases),
+                      rule='chains wps_parts/wps_length -> warping_paths_affinity_ndim (compact, exact-size) -> expand_wps_affinity / '
+                           'expand_wps_slice_affinity / wps_max / best_path_affinity / wps_negativize(_value) / wps_positivize / wps_loc, '
+                           'random shapes <= 7, window, only_triu, penalty in {0,1}; values against the affinity recurrence',
+                      bound='lengths <= 7, %d random cases' % len(cases), samples=samples, violations=violations[p],
+                      n_violations=len(violations[p]), label='bounded')
+    run._c_affinity = out
     return out
